@@ -36,10 +36,12 @@ TStep == /\ Consume("step") /\ Ev.ok /\ Ev.p
          /\ Len(delivered') = Ev.ndeliv
          /\ {d \in Devs : keyKnown'[d]} = ToSet(Ev.known)
 TNoProgress == /\ Consume("step") /\ (~Ev.ok \/ ~Ev.p) /\ UNCHANGED vars
+\* the caller-context canceller of the driver ("kc"): no effect on the pipeline of the code as it is
+TCallerCancel == /\ Consume("step") /\ Ev.ok /\ Ev.p /\ Ev.t = "kc" /\ UNCHANGED vars
 TFinal == /\ Consume("final") /\ Quiescent
           /\ delivered = Ev.delivered
           /\ UNCHANGED vars
-TNext == TReset \/ TCfg \/ TStep \/ TNoProgress \/ TFinal
+TNext == TReset \/ TCfg \/ TStep \/ TNoProgress \/ TCallerCancel \/ TFinal
 TInit == Init /\ l = 1 /\ TLCSet(42, 1)
 TSpec == TInit /\ [][TNext]_tvars
 Mark == TLCSet(42, IF l > TLCGet(42) THEN l ELSE TLCGet(42))
